@@ -570,10 +570,56 @@ pub fn c02_run(cfg: &RunCfg) -> CheckReport {
         });
         rep.part("huge-size-triggers", json!({"inputs": extra.iter().map(|(a, i)| format!("{} {}", alg_name(*a), i.name)).collect::<Vec<_>>()}), ex);
     }
+    if !rep.has_violation() {
+        // more than 2^24 items in total, one item different: the ratio must still be < 1.0
+        let ex = explore(cfg, 3, |shard, acc| {
+            let n = 1usize << [23, 24, 25][shard];
+            let old: Vec<u8> = vec![7; n];
+            let mut new = old.clone();
+            new.push(9);
+            let r = subject(|| {
+                let ops = similar::capture_diff_slices(Algorithm::Myers, &old, &new);
+                let r = similar::get_diff_ratio(&ops, old.len(), new.len());
+                (ops, r)
+            });
+            match r {
+                Err(p) => acc.violation(|| (json!({"huge_ratio": n}), format!("panic: {}", p))),
+                Ok((ops, r)) => {
+                    if !(0.0..=1.0).contains(&r) || r == 1.0 {
+                        acc.violation(|| {
+                            (
+                                json!({"huge_ratio": n}),
+                                format!(
+                                    "{} equal items against the same plus one appended: ops {:?}, ratio {} (must lie in 0..=1 and be 1.0 only for equal inputs)",
+                                    n, ops, r
+                                ),
+                            )
+                        });
+                    } else {
+                        acc.sample(json!({"items": n, "ratio": r}));
+                        acc.ok(true, ops.len() as u64, r.to_bits() as u64);
+                    }
+                }
+            }
+        });
+        rep.part("ratio-of-huge-near-identical-inputs", json!({"sizes": ["2^23", "2^24", "2^25"], "edit": "one item appended"}), ex);
+    }
     rep
 }
 
 pub fn c02_replay(case: &Value) -> Result<String, String> {
+    if let Some(n) = case.get("huge_ratio").and_then(|x| x.as_u64()) {
+        let old: Vec<u8> = vec![7; n as usize];
+        let mut new = old.clone();
+        new.push(9);
+        let ops = similar::capture_diff_slices(Algorithm::Myers, &old, &new);
+        let r = similar::get_diff_ratio(&ops, old.len(), new.len());
+        return if (0.0..=1.0).contains(&r) && r != 1.0 {
+            Ok(format!("holds; ratio {}", r))
+        } else {
+            Err(format!("{} equal items against the same plus one appended: ratio {}", n, r))
+        };
+    }
     if let Some(r) = large::resolve(case) {
         let (alg, inp) = r?;
         return c02_large(alg, &inp).map(|o| format!("holds; fingerprint {:x}", o.2));
@@ -831,6 +877,20 @@ pub fn c03_run(cfg: &RunCfg) -> CheckReport {
     rep.part("pairs", json!({"scopes": space.describe(), "algorithms": ["Myers", "Lcs"]}), ex);
     if !rep.has_violation() {
         large::run_part(cfg, &mut rep, &MIN_ALGS, &|a| if a == Algorithm::Lcs { 300 } else { usize::MAX }, c03_large);
+    }
+    if !rep.has_violation() {
+        let big = large::lcs_big();
+        let ex = explore(cfg, big.len(), |shard, acc| {
+            let inp = &big[shard];
+            match c03_large(Algorithm::Lcs, inp) {
+                Ok((nt, tr, fp)) => {
+                    acc.sample(large::case_json(Algorithm::Lcs, inp, cfg.seed));
+                    acc.ok(nt, tr, fp);
+                }
+                Err(e) => acc.violation(|| (large::case_json(Algorithm::Lcs, inp, cfg.seed), format!("{}: {}", inp.name, e))),
+            }
+        });
+        rep.part("lcs-huge-sides", json!({"inputs": big.iter().map(|i| i.name.clone()).collect::<Vec<_>>()}), ex);
     }
     rep
 }
